@@ -15,6 +15,7 @@ package c06
 import (
 	"context"
 	"fmt"
+	"os"
 	"runtime"
 	"strings"
 	"sync"
@@ -579,12 +580,13 @@ type job struct {
 	hist    []evSpec
 	scripts [][]evSpec
 	yields  []bool
+	wins    []window // gated part (c06_gate_test.go)
 }
 
 func TestC06(t *testing.T) {
 	r := vf.Start(t, "C06", vf.FaultEnumeration)
 	defer r.Finish()
-	r.SetRule("Histories over the alphabet {Est(l), Lost(l)} on 3 links (4 in part of the concurrent runs) in 6 (+3) uuid/peer sharing patterns (distinct; same peer; same uuid + same peer; same uuid + other peer; three links on one uuid; a self link on a shared uuid). Sequential part: every history of length L (quick 4, thorough 5; shorter ones are their prefixes) for every pattern, each event awaited, plus PRNG histories of length 6-8. Concurrent part: PRNG scripts from 2-4 goroutines plus a concurrent GetPeerLinks reader; the applied order is taken from the hook events. A case is non-trivial when the reference table changed at least twice during the history (the clean-up losses afterwards not counted); distinct = distinct (pattern, history[, observed hook order]). Oracle: reference table replayed in hook order; after EVERY event the copy of links/linksByPeerID taken under the controller lock must equal it (keys, partition by remote peer, same entry objects, no nil/duplicate entries); GetPeerLinks equals it (exactly when nothing is in flight, in some state of the call interval when concurrent); at settled points the values of EstablishLinkWithPeer directives equal it and every link the reference removed (lost / replaced / self) has had Close called. 'present => not closed' is never demanded. quic part: 14 scripted scenarios with real pconn/quic transports on an in-memory switch (close, reconnect with the same key from the same address once / twice / on a second address / beside another peer / followed by close and connect / racing another peer's close, another key from the same address (usurp), two addresses, usurp and back, close racing a reconnect, silent kill), each run without and with the harness holding EstablishLinkWithPeer(L, peer) references (only with them a replacement link survives the late loss of the link it replaced: unreferenced, the controller closes all links of a peer when one is lost); after every step GetPeerLinks must report exactly the sessions that are alive as seen by the harness and the remote ends; a closed link still reported after the transport finished processing its loss with no handler call pending is a violation. The quic transport's own table is judged in every polling iteration after every step, without settling: for every address, the local end l of the newest session the script connected from it, if not closed (context alive before and after the lookups), must be what Transport.LookupLinkWithAddr returns and LookupLinkWithPeer must return a link of l's peer; a link whose loss the transport finished processing (hook) must not be returned by either lookup.")
+	r.SetRule("Histories over the alphabet {Est(l), Lost(l)} on 3 links (4 in part of the concurrent runs) in 6 (+3) uuid/peer sharing patterns (distinct; same peer; same uuid + same peer; same uuid + other peer; three links on one uuid; a self link on a shared uuid). Sequential part: every history of length L (quick 4, thorough 5; shorter ones are their prefixes) for every pattern, each event awaited, plus PRNG histories of length 6-8. Concurrent part: PRNG scripts from 2-4 goroutines plus a concurrent GetPeerLinks reader; the applied order is taken from the hook events. A case is non-trivial when the reference table changed at least twice during the history (the clean-up losses afterwards not counted); distinct = distinct (pattern, history[, observed hook order]). Oracle: reference table replayed in hook order; after EVERY event the copy of links/linksByPeerID taken under the controller lock must equal it (keys, partition by remote peer, same entry objects, no nil/duplicate entries); GetPeerLinks equals it (exactly when nothing is in flight, in some state of the call interval when concurrent); at settled points the values of EstablishLinkWithPeer directives equal it and every link the reference removed (lost / replaced / self) has had Close called. 'present => not closed' is never demanded. Gated part (quick 500 / thorough 10000 PRNG histories of 1-3 windows over the same patterns): a window is 0-2 awaited events, then a trigger event (Est, 1 in 6 Lost, of a non-self link) with a harness gate armed on the directive of that link's peer, so that the next value-added callback (1 in 3 and for Lost triggers: the next callback of any kind) parks inside the resolver's emit call (no lock of the controller is held there); when the reference table of that peer changed, the harness waits for the callback to arrive (condition, not time), then delivers 1-3 further events, 7 in 10 on links sharing the peer or uuid of the trigger link, 1 in 4 the loss of the very link being reported, each awaited at its hook and judged like a sequential event, WHILE the callback is held, then opens the gate and delivers nothing more: the system must settle with the directive values equal to the reference table (a resolver that does not notice an event applied while it was emitting stays wrong for good: values:lost-link-still-reported / established-link-not-reported). quic part: 14 scripted scenarios with real pconn/quic transports on an in-memory switch (close, reconnect with the same key from the same address once / twice / on a second address / beside another peer / followed by close and connect / racing another peer's close, another key from the same address (usurp), two addresses, usurp and back, close racing a reconnect, silent kill), each run without and with the harness holding EstablishLinkWithPeer(L, peer) references (only with them a replacement link survives the late loss of the link it replaced: unreferenced, the controller closes all links of a peer when one is lost); after every step GetPeerLinks must report exactly the sessions that are alive as seen by the harness and the remote ends; a closed link still reported after the transport finished processing its loss with no handler call pending is a violation. The quic transport's own table is judged in every polling iteration after every step, without settling: for every address, the local end l of the newest session the script connected from it, if not closed (context alive before and after the lookups), must be what Transport.LookupLinkWithAddr returns and LookupLinkWithPeer must return a link of l's peer; a link whose loss the transport finished processing (hook) must not be returned by either lookup.")
 	r.Assume("a fake link never reports its own loss; its local peer is the transport's peer; uuids are stable")
 	r.Assume("linearisation order = order of the tc.established / tc.lost hook events (emitted as the last action under Controller.bcast); a handler call that HoldLockMaybeAsync applies later than a subsequent call of the same goroutine is judged in applied order (counted as program_order_inversions_observed, not flagged)")
 	r.Assume("stuck-state verdicts (value/close obligations) are taken only when every goroutine with bifrost/controllerbus frames is parked and no other case is running; timers of >= 10 s (directive hold-open) are outside every case's lifetime")
@@ -648,10 +650,21 @@ func TestC06(t *testing.T) {
 			jobs = append(jobs, job{p: p, scripts: sc, yields: ys})
 		}
 	}
+	nConc := len(jobs)
+	// gated: link events applied while a value callback is held (c06_gate_test.go)
+	grng := r.Rand("c06-gated")
+	for i, m := 0, r.N(500, 10000); i < m; i++ {
+		p, ws := genGated(grng)
+		jobs = append(jobs, job{p: p, wins: ws})
+	}
+	r.Extra("gated_runs", len(jobs)-nConc)
+	if os.Getenv("VERIF_C06_ONLY") == "gated" { // debugging aid only
+		jobs = jobs[nConc:]
+	}
 	r.Extra("sequential_exhaustive_histories", nExh)
 	r.Extra("sequential_exhaustive_length", L)
 	r.Extra("sequential_sampled_histories", nSeq-nExh)
-	r.Extra("concurrent_runs", len(jobs)-nSeq)
+	r.Extra("concurrent_runs", nConc-nSeq)
 	r.SetExhaustive(true)
 	r.Extra("exhaustive_scope", fmt.Sprintf("sequential histories of length <= %d over 3 links x 6 sharing patterns; longer and concurrent histories are sampled", L))
 
@@ -675,7 +688,9 @@ func TestC06(t *testing.T) {
 				if r.Violations() > 40 {
 					continue
 				}
-				if j.scripts != nil {
+				if j.wins != nil {
+					ru.runGated(j.p, j.wins)
+				} else if j.scripts != nil {
 					ru.runConc(j.p, j.scripts, j.yields)
 				} else {
 					ru.runSeq(j.p, j.hist)
@@ -693,6 +708,7 @@ func TestC06(t *testing.T) {
 	close(ch)
 	wg.Wait()
 	r.Extra("jobs_run", done.Load())
+	r.Extra("gated_part_worker_seconds_summed(informational)", float64(gatedNanos.Load())/1e9)
 
 	// quic layer: real pconn transports (after the fake-link parts so that the
 	// stuck-state detector never has to look at quic goroutines)
